@@ -75,7 +75,7 @@ type convertCtx struct {
 func runConvert(c *core.Ctx, r *rec, idx int) {
 	g := &Gen{r: c.Rand(fmt.Sprintf("convert-%d", idx)), uid: int64(idx) * 10_000_000}
 	cc := &convertCtx{r: r, fb: flatbuffers.NewBuilder(2048), dec: newStorageDecoder()}
-	nBatches := c.Pick(700, 3000)
+	nBatches := c.Pick(500, 12000)
 	for b := 0; b < nBatches; b++ {
 		mb := genMiniBatch(g, cc)
 		cc.runMiniBatch(g, mb)
